@@ -205,6 +205,15 @@ def ob_tree3core(via: int, s0: int, s1: int, s2: int) -> bool:
         return _check_request(CORE[s0], CORE[s1], CORE[s2], 0, 3, via)
 
 
+def ob_tree4core(via: int, s0: int, s1: int, s2: int, s3: int) -> bool:
+    with untraced():
+        return _check_request(CORE[s0], CORE[s1], CORE[s2], CORE[s3], 4, via)
+
+
+def confirm_tree4core(via, s0, s1, s2, s3):
+    return not _check_request(CORE[s0], CORE[s1], CORE[s2], CORE[s3], 4, via)
+
+
 def confirm_tree3core(via, s0, s1, s2):
     return not _check_request(CORE[s0], CORE[s1], CORE[s2], 0, 3, via)
 
